@@ -54,8 +54,8 @@ Inductive instr :=
 | I_EXTCODECOPY | I_POP | I_MLOAD | I_MSTORE | I_MSTORE8 | I_SLOAD | I_SSTORE
 | I_JUMP | I_JUMPI | I_JUMPDEST | I_TSTORE | I_MCOPY
 | I_PUSH (n : nat)            (* PUSH1..PUSH32, n = 1..32 *)
-| I_DUP (n : nat)             (* DUP1..DUP16 *)
-| I_SWAP (n : nat)            (* SWAP1..SWAP16 *)
+| I_DUP (n : nat)             (* DUP(n+1): n = 0..15 *)
+| I_SWAP (n : nat)            (* SWAP(n+1): n = 0..15 *)
 | I_LOG (n : nat)             (* LOG0..LOG4 *)
 | I_CREATE | I_CREATE2 | I_call (k : callop) | I_RETURN | I_REVERT | I_INVALID
 | I_SELFDESTRUCT.
@@ -90,8 +90,8 @@ Definition decode (fk : fork) (op : N) : instr :=
   | 253 => I_REVERT | 255 => I_SELFDESTRUCT
   | _ =>
       if (96 <=? op) && (op <=? 127) then I_PUSH (N.to_nat (op - 95))
-      else if (128 <=? op) && (op <=? 143) then I_DUP (N.to_nat (op - 127))
-      else if (144 <=? op) && (op <=? 159) then I_SWAP (N.to_nat (op - 143))
+      else if (128 <=? op) && (op <=? 143) then I_DUP (N.to_nat (op - 128))
+      else if (144 <=? op) && (op <=? 159) then I_SWAP (N.to_nat (op - 144))
       else if (160 <=? op) && (op <=? 164) then I_LOG (N.to_nat (op - 160))
       else I_INVALID
   end.
@@ -112,8 +112,8 @@ Definition stack_req (i : instr) : nat * nat :=
   | I_EXTCODECOPY => (4, 0)
   | I_POP | I_JUMP | I_SELFDESTRUCT => (1, 0)
   | I_MSTORE | I_MSTORE8 | I_SSTORE | I_JUMPI | I_TSTORE | I_RETURN | I_REVERT => (2, 0)
-  | I_DUP n => (n, S n)
-  | I_SWAP n => (S n, S n)
+  | I_DUP n => (S n, S (S n))
+  | I_SWAP n => (S (S n), S (S n))
   | I_LOG n => (n + 2, 0)
   | I_CREATE => (3, 1)
   | I_CREATE2 => (4, 1)
